@@ -233,3 +233,163 @@ Theorem C03_holds_sim_out_sound : forall c out,
                                 (read_vars (g_region c) (g_vars c)))).
 Proof. exact holds_sim_out_sound. Qed.
 Print Assumptions C03_holds_sim_out_sound.
+
+(* ---- the property as one statement in the breakpoints' vocabulary; C05's lookup; wide panels ---- *)
+From HV Require Import C03_ProofsSpec C03_ProofsC05 C03_ProofsComplete.
+From HV Require C05_Model C05_Proofs.
+
+(* row-level inversion of the model: one array of cells per simulated haplotype, as long as the list of
+   records written; GT / POP / SAMPLE are its projections; every simulated haplotype is in the output *)
+Theorem C03_output_rows : forall (g : config) (out : output),
+  output_vcf g = Ok out -> NoDup (g_chroms g) ->
+  forall cur_chr, (exists i0 v0 r, read_vars (g_region g) (g_vars g) = (i0, v0) :: r /\ cur_chr = rv_chr v0) ->
+  let ov := out_vars cur_chr (g_chroms g) (read_vars (g_region g) (g_vars g)) in
+  (forall hap, In hap (g_bps g) -> forall c, In c (g_chroms g) -> chrom_covered hap c (cvars_of cur_chr c ov)) ->
+  o_vars out = map fst ov /\ length (o_gt out) = length (g_bps g) /\
+  forall h hap, nth_error (g_bps g) h = Some hap ->
+    exists arr, length arr = length ov /\
+      nth_error (o_gt out) h = Some (map (option_map gt_of) arr) /\
+      (forall m, o_pop out = Some m -> nth_error m h = Some (map (option_map pop_of) arr)) /\
+      (forall m, o_smp out = Some m -> nth_error m h = Some (map (option_map smp_of) arr)) /\
+      forall c, In c (g_chroms g) -> cells_spec (g_norep g) (g_tab g) (g_data g) cur_chr ov hap c arr.
+Proof. exact output_rows. Qed.
+Print Assumptions C03_output_rows.
+
+(* THE PROPERTY, end to end over the model.  For every configuration on which output_vcf completes
+   (distinct non-negative requested chromosomes; breakpoints sorted by (chromosome, end) and covering the
+   variants read): the records written are the reference's on the requested chromosomes, in reference
+   order, and for every simulated haplotype h (= 2*sample + strand) there is ONE assignment
+      src : chromosome -> number of the block among the chromosome's tracts -> (reference sample, strand)
+   such that every output row i (variant oidx at position p of chromosome c) satisfies, with
+   k = first_ge (ends_on c hap) p - the first tract whose end is >= p, so a variant exactly on a block
+   end belongs to that block and one past every other end to the last block - and (r,u) = src c k:
+      label_at hap c p = Some lab,
+      GT = the allele of reference haplotype (r,u) at oidx (a value: never uninitialised memory),
+      POP = lab and SAMPLE = r whenever those fields are written (alone or together),
+      with replacement: r is listed by the sample-info table under lab.
+   src depends on the block only: all variants of one ancestry block come from one reference haplotype. *)
+Theorem C03_output_allele_label_at : forall (g : config) (out : output),
+  output_vcf g = Ok out -> NoDup (g_chroms g) -> (forall c, In c (g_chroms g) -> 0 <= c) ->
+  (forall hap, In hap (g_bps g) -> sorted hap /\ forall s, In s hap -> 0 <= endc s) ->
+  forall cur_chr, (exists i0 v0 r, read_vars (g_region g) (g_vars g) = (i0, v0) :: r /\ cur_chr = rv_chr v0) ->
+  let ov := out_vars cur_chr (g_chroms g) (read_vars (g_region g) (g_vars g)) in
+  (forall hap, In hap (g_bps g) -> forall c, In c (g_chroms g) -> chrom_covered hap c (cvars_of cur_chr c ov)) ->
+  o_vars out = map fst ov /\
+  forall h hap, nth_error (g_bps g) h = Some hap ->
+  exists src : Z -> nat -> Z * Z,
+  forall c, In c (g_chroms g) -> forall i oidx v, nth_error ov i = Some (oidx, v) -> on_chrom cur_chr c v = true ->
+    let k := first_ge (ends_on c hap) (rv_pos v) in
+    exists lab a,
+      label_at hap c (rv_pos v) = Some lab /\
+      lookup (g_data g) (fst (src c k)) oidx (snd (src c k)) = Some a /\
+      0 <= fst (src c k) /\ (snd (src c k) = 0 \/ snd (src c k) = 1) /\
+      (g_norep g = false -> exists lst, pt_get (g_tab g) lab = Some lst /\ In (fst (src c k)) lst) /\
+      cell_at (o_gt out) h i = Some (Some a) /\
+      (forall m, o_pop out = Some m -> cell_at m h i = Some (Some lab)) /\
+      (forall m, o_smp out = Some m -> cell_at m h i = Some (Some (fst (src c k)))).
+Proof. exact output_allele_label_at. Qed.
+Print Assumptions C03_output_allele_label_at.
+
+(* the same for breakpoints as simgenotype writes them (C02: sorted, every requested chromosome closed by
+   the int32-max sentinel) and a position-sorted panel: no covering hypothesis is left *)
+Theorem C03_output_allele_simulated : forall (g : config) (out : output),
+  output_vcf g = Ok out -> NoDup (g_chroms g) -> (forall c, In c (g_chroms g) -> 0 <= c) ->
+  (forall hap, In hap (g_bps g) -> sorted hap /\ (forall s, In s hap -> 0 <= endc s) /\
+     forall c, In c (g_chroms g) -> exists s, In s hap /\ chrom s = c /\ endc s = MAXC) ->
+  forall cur_chr, (exists i0 v0 r, read_vars (g_region g) (g_vars g) = (i0, v0) :: r /\ cur_chr = rv_chr v0) ->
+  let ov := out_vars cur_chr (g_chroms g) (read_vars (g_region g) (g_vars g)) in
+  (forall c, In c (g_chroms g) -> asc (positions_on cur_chr c ov) /\
+     forall p, In p (positions_on cur_chr c ov) -> p <= MAXC) ->
+  o_vars out = map fst ov /\
+  forall h hap, nth_error (g_bps g) h = Some hap ->
+  exists src : Z -> nat -> Z * Z,
+  forall c, In c (g_chroms g) -> forall i oidx v, nth_error ov i = Some (oidx, v) -> on_chrom cur_chr c v = true ->
+    let k := first_ge (ends_on c hap) (rv_pos v) in
+    exists lab a,
+      label_at hap c (rv_pos v) = Some lab /\
+      lookup (g_data g) (fst (src c k)) oidx (snd (src c k)) = Some a /\
+      0 <= fst (src c k) /\ (snd (src c k) = 0 \/ snd (src c k) = 1) /\
+      (g_norep g = false -> exists lst, pt_get (g_tab g) lab = Some lst /\ In (fst (src c k)) lst) /\
+      cell_at (o_gt out) h i = Some (Some a) /\
+      (forall m, o_pop out = Some m -> cell_at m h i = Some (Some lab)) /\
+      (forall m, o_smp out = Some m -> cell_at m h i = Some (Some (fst (src c k)))).
+Proof. exact output_allele_simulated. Qed.
+Print Assumptions C03_output_allele_simulated.
+
+(* cross-file corollary with C05: the POP row written for simulated haplotype h is exactly what the model of
+   Breakpoints.population_array (C05_Model.strand_row: per-chromosome searchsorted + scatter) looks up in h's
+   tracts at the output's variants - simgenotype's block assignment and the breakpoint reader's lookup agree *)
+Theorem C03_pop_is_strand_row : forall (g : config) (out : output) (m : list (list (option Z))),
+  output_vcf g = Ok out -> o_pop out = Some m ->
+  NoDup (g_chroms g) -> (forall c, In c (g_chroms g) -> 0 <= c) ->
+  (forall hap, In hap (g_bps g) -> sorted hap /\ forall s, In s hap -> 0 <= endc s) ->
+  forall cur_chr, (exists i0 v0 r, read_vars (g_region g) (g_vars g) = (i0, v0) :: r /\ cur_chr = rv_chr v0) ->
+  let ov := out_vars cur_chr (g_chroms g) (read_vars (g_region g) (g_vars g)) in
+  (forall hap, In hap (g_bps g) -> forall c, In c (g_chroms g) -> chrom_covered hap c (cvars_of cur_chr c ov)) ->
+  forall h hap, nth_error (g_bps g) h = Some hap ->
+    C05_Model.strand_row hap (map var_of ov) = Ok (labs_of hap (map var_of ov)) /\
+    nth_error m h = Some (map Some (labs_of hap (map var_of ov))).
+Proof. exact pop_is_strand_row. Qed.
+Print Assumptions C03_pop_is_strand_row.
+
+(* ... and for the whole table (sample s = haplotypes 2s, 2s+1, as in the .bp file): population_array at the
+   output's variants returns, per sample, the two strands' labels side by side, and those are the POP rows *)
+Theorem C03_pop_is_population_array : forall (g : config) (out : output) (m : list (list (option Z))),
+  output_vcf g = Ok out -> o_pop out = Some m ->
+  NoDup (g_chroms g) -> (forall c, In c (g_chroms g) -> 0 <= c) ->
+  (forall hap, In hap (g_bps g) -> sorted hap /\ forall s, In s hap -> 0 <= endc s) ->
+  forall cur_chr, (exists i0 v0 r, read_vars (g_region g) (g_vars g) = (i0, v0) :: r /\ cur_chr = rv_chr v0) ->
+  let ov := out_vars cur_chr (g_chroms g) (read_vars (g_region g) (g_vars g)) in
+  let vs := map var_of ov in
+  (forall hap, In hap (g_bps g) -> forall c, In c (g_chroms g) -> chrom_covered hap c (cvars_of cur_chr c ov)) ->
+  C05_Model.population_array (pair_up 0 (g_bps g)) vs None
+    = Ok (map (fun e => combine (labs_of (fst (snd e)) vs) (labs_of (snd (snd e)) vs)) (pair_up 0 (g_bps g)))
+  /\ forall h hap, nth_error (g_bps g) h = Some hap -> nth_error m h = Some (map Some (labs_of hap vs)).
+Proof. exact pop_is_population_array. Qed.
+Print Assumptions C03_pop_is_population_array.
+
+(* the hypotheses of the three theorems above are satisfiable (C03_output_allele_example's configuration) *)
+Example C03_output_allele_label_at_example :
+  (forall c, In c (g_chroms ex_cfg) -> 0 <= c) /\
+  (forall hap, In hap (g_bps ex_cfg) -> sorted hap /\ (forall s, In s hap -> 0 <= endc s) /\
+     forall c, In c (g_chroms ex_cfg) -> exists s, In s hap /\ chrom s = c /\ endc s = MAXC) /\
+  (forall c, In c (g_chroms ex_cfg) ->
+     asc (positions_on false c (out_vars false (g_chroms ex_cfg) (read_vars (g_region ex_cfg) (g_vars ex_cfg)))) /\
+     forall p, In p (positions_on false c (out_vars false (g_chroms ex_cfg) (read_vars (g_region ex_cfg) (g_vars ex_cfg))))
+               -> p <= MAXC).
+Proof. exact output_allele_label_at_example. Qed.
+Print Assumptions C03_output_allele_label_at_example.
+
+Example C03_pop_is_population_array_example :
+  C05_Model.population_array (pair_up 0 (g_bps ex_cfg))
+     (map var_of (out_vars false (g_chroms ex_cfg) (read_vars (g_region ex_cfg) (g_vars ex_cfg)))) None
+  = Ok [[(1, 1); (2, 1)]].
+Proof. exact pop_is_population_array_example. Qed.
+Print Assumptions C03_pop_is_population_array_example.
+
+(* completeness of the checker with respect to the model (replacement mode): whatever the model of output_vcf
+   returns on sorted, covering breakpoints passes [holds_out] - with the soundness theorems above: the boolean
+   evaluated on the implementation's files demands exactly what the model delivers, never more *)
+Theorem C03_holds_out_complete : forall (g : config) (out : output),
+  output_vcf g = Ok out -> g_norep g = false ->
+  NoDup (g_chroms g) -> (forall c, In c (g_chroms g) -> 0 <= c) ->
+  (forall hap, In hap (g_bps g) -> sorted hap /\ forall s, In s hap -> 0 <= endc s) ->
+  forall cur_chr, (exists i0 v0 r, read_vars (g_region g) (g_vars g) = (i0, v0) :: r /\ cur_chr = rv_chr v0) ->
+  let ov := out_vars cur_chr (g_chroms g) (read_vars (g_region g) (g_vars g)) in
+  (forall hap, In hap (g_bps g) -> forall c, In c (g_chroms g) -> chrom_covered hap c (cvars_of cur_chr c ov)) ->
+  holds_out g out = true.
+Proof. exact holds_out_complete. Qed.
+Print Assumptions C03_holds_out_complete.
+
+Example C03_holds_out_complete_example :
+  g_norep ex_cfg = false /\ (exists out, output_vcf ex_cfg = Ok out /\ holds_out ex_cfg out = true).
+Proof. exact holds_out_complete_example. Qed.
+Print Assumptions C03_holds_out_complete_example.
+
+(* meaning of the formula panels the correspondence check uses for wide reference panels (hundreds to 2^16+
+   samples): reference haplotype 2*r+u carries (h*mult + shift) mod modulus at variant v *)
+Theorem C03_fdata_lookup : forall nref fs r v u f,
+  0 <= r < nref -> nthZ fs v = Some f -> (u = 0 \/ u = 1) ->
+  lookup (fdata nref fs) r v u = Some (fcell (2 * r + u) f).
+Proof. exact fdata_lookup. Qed.
+Print Assumptions C03_fdata_lookup.
